@@ -10,7 +10,8 @@
 (*        nclients : 1 | 2, cap : cache capacity, maxlen : longest list,   *)
 (*        maxinfl  : bound of the in-flight queues, ttl : seconds,         *)
 (*        writer2  : client 2 only writes and reads plainly,               *)
-(*        lite     : without Contains, Iter, Len, SetTtl, Reopen]          *)
+(*        lite     : without Contains, Iter, Len, SetTtl, Reopen,          *)
+(*        ttl1     : SetTtl on key k1 only]                                *)
 (* so that MC_Store can explore one kind per run and JudgeC20 can replay   *)
 (* paths of all kinds in one run.  The state is ONE record s; every store  *)
 (* operation is a function  Step(P, s, o)  from state to state with the    *)
@@ -191,6 +192,7 @@ Enabled(P, s, o) ==
     /\ CASE o.op = "Set" -> o.v \in 1..3
          [] o.op = "NestedSet" -> P.shape = "dict" /\ <<o.f, o.v>> \in NestedArgs
          [] o.op = "Append" -> P.shape = "list" /\ o.v \in Scalars /\ Len(Value(s, o.k)) < P.maxlen
+         [] o.op = "SetTtl" -> ~P.ttl1 \/ o.k = "k1"
          [] o.op = "DeliverInvalidation" -> HasCache(P) /\ s.inflight[o.c] # <<>>
          [] o.op = "Reopen" -> ~s.dirty
          [] OTHER -> TRUE
